@@ -87,7 +87,9 @@ func (a *c21App) IsRecognized(pk *operator.PublicKey) (bool, error) {
 	case c21Yes:
 		return true, nil
 	case c21Err:
-		return false, c21ErrApp
+		// the value that comes with an error carries no information: half of
+		// the failed checks return true next to the error
+		return (a.idx+p)%2 == 0, c21ErrApp
 	}
 	return false, nil
 }
